@@ -232,12 +232,13 @@ func checkC19(e *Engine, r *Report) {
 		fee := sliceFrom(a[4])
 		r.Check(hasFieldLoad(fee, "Fee", "Amount") && hasFieldLoad(fee, "Fee", "GasLimit"), "sign doc field › fee (amount, gas limit)", e.Pos(sb[0].Pos()), "StdFee{Amount: authInfo.Fee.Amount, Gas: authInfo.Fee.GasLimit}", "fee amount or gas limit of the sign doc is not part of the hashed bytes")
 		msgsV := resolveLocal(a[5])
-		// the unpacking loop may live in a single-site private helper returning (msgs, error) whose error is propagated
+		// the unpacking loop may live in a private helper returning (msgs, error) whose error is propagated; the helper may be
+		// shared (Amino and Protobuf path) and receive the per-message decoder as a function literal
 		mfn := fn
+		var site *ssa.Call
 		if ex, isEx := msgsV.(*ssa.Extract); isEx {
 			if hc, _ := callOf(ex.Tuple); hc != nil {
-				reg := e.privateRegion(fn)
-				if h := hc.Call.StaticCallee(); h != nil && reg.in[h] && h != fn && errorPropagated(fn, hc, nil) {
+				if h := hc.Call.StaticCallee(); h != fn && privHelper(pkgEip712)(h) && errorPropagated(fn, hc, nil) {
 					var mk ssa.Value
 					same := true
 					for _, ret := range successReturns(h) {
@@ -248,15 +249,51 @@ func checkC19(e *Engine, r *Report) {
 						mk = v
 					}
 					if same && mk != nil {
-						mfn, msgsV = h, mk
+						mfn, msgsV, site = h, mk, hc
 					}
 				}
 			}
 		}
 		_, isMake := msgsV.(*ssa.MakeSlice)
-		unpack := callsIn(mfn, false, func(c ssa.CallInstruction) bool {
+		isUnpack := func(c ssa.CallInstruction) bool {
 			return isMethodNamed(c, "UnpackAny") && hasFieldLoad(sliceFrom(c.Common().Args[0]), "TxBody", "Messages")
-		})
+		}
+		unpack := callsIn(mfn, false, isUnpack)
+		viaLiteral := false
+		if len(unpack) == 0 && site != nil {
+			// decoder literal handed to the helper: the helper must call that parameter inside its filling loop
+			for pi, arg := range site.Call.Args {
+				mc, isMC := arg.(*ssa.MakeClosure)
+				if !isMC || pi >= len(mfn.Params) {
+					continue
+				}
+				lit := mc.Fn.(*ssa.Function)
+				lu := callsIn(lit, false, isUnpack)
+				if len(lu) != 1 {
+					continue
+				}
+				// the element unpacked is body.Messages[i] with i the literal's index parameter
+				idxOK := false
+				if ia, isIA := resolveLocal(lu[0].Common().Args[0]).(*ssa.UnOp); isIA {
+					if x, isX := ia.X.(*ssa.IndexAddr); isX && len(lit.Params) > 0 && x.Index == ssa.Value(lit.Params[0]) {
+						idxOK = true
+					}
+				}
+				dyn := callsIn(mfn, false, func(c ssa.CallInstruction) bool { return c.Common().Value == ssa.Value(mfn.Params[pi]) })
+				inLoop := false
+				for _, d := range dyn {
+					for _, l := range loopsOf(mfn) {
+						if l.Body[d.Block()] {
+							inLoop = true
+						}
+					}
+				}
+				if idxOK && inLoop && len(dyn) == 1 && errorPropagated(mfn, dyn[0], nil) {
+					unpack, viaLiteral = lu, true
+				}
+			}
+		}
+		_ = viaLiteral
 		storedInLoop := false
 		if isMake && msgsV.Referrers() != nil {
 			for _, rr := range *msgsV.Referrers() {
@@ -272,10 +309,22 @@ func checkC19(e *Engine, r *Report) {
 		r.Check(isMake && len(unpack) == 1 && storedInLoop, "sign doc field › messages", e.Pos(sb[0].Pos()), "every body message unpacked into the msgs argument", "the messages of the transaction body are not (all) part of the hashed bytes")
 		// all body messages are unpacked: msgs has len(body.Messages) and the loop fills index i for the range index
 		okAll := false
+		isLenOfMessages := func(v ssa.Value) bool {
+			c, _ := callOf(v)
+			if c == nil {
+				return false
+			}
+			b, isB := c.Call.Value.(*ssa.Builtin)
+			return isB && b.Name() == "len" && hasFieldLoad(sliceFrom(c.Call.Args[0]), "TxBody", "Messages")
+		}
 		allInstrs(mfn, false, func(_ *ssa.Function, _ *ssa.BasicBlock, i ssa.Instruction) {
 			if mk, ok := i.(*ssa.MakeSlice); ok {
-				if c, _ := callOf(mk.Len); c != nil {
-					if b, isB := c.Call.Value.(*ssa.Builtin); isB && b.Name() == "len" && hasFieldLoad(sliceFrom(c.Call.Args[0]), "TxBody", "Messages") {
+				if isLenOfMessages(mk.Len) {
+					okAll = true
+				}
+				// the length is a parameter of the shared helper: judge the argument of this call
+				if p, isP := resolveLocal(mk.Len).(*ssa.Parameter); isP && site != nil && p.Parent() == mfn {
+					if k := paramIndex(p); k >= 0 && k < len(site.Call.Args) && isLenOfMessages(site.Call.Args[k]) {
 						okAll = true
 					}
 				}
